@@ -94,7 +94,6 @@ def parseSk : Nat → List (List String) → Sk × List (List String)
 def parseStd (s : String) : Std := if s == "f2008" then .f2008 else .f2003
 
 def abortStr : Abort → String
-  | .internalError => "InternalError"
   | .syntaxError => "FortranSyntaxError"
   | .keyError => "KeyError"
   | .noMatch => "NoMatch"
@@ -121,7 +120,8 @@ def handleSites : String :=
   ++ enc (",".intercalate Generated.SymGlueSites.scoping2003) ++ "\t"
   ++ enc (",".intercalate Generated.SymGlueSites.scoping2008) ++ "\t"
   ++ enc (",".intercalate Generated.SymGlueSites.onlyAlternatives) ++ "\t"
-  ++ enc (",".intercalate Generated.SymGlueSites.primaryAlternatives)
+  ++ enc (",".intercalate Generated.SymGlueSites.primaryAlternatives) ++ "\t"
+  ++ enc (",".intercalate (Generated.SymGlueSites.onlyLoopBranches.map fun e => e.1 ++ ":" ++ e.2))
 
 def handle : String → List String → Option String
   | "symglue.run", [s, t] => some (handleRun (dec s) (dec t))
